@@ -40,6 +40,29 @@ PROPS = {
                     "numbers, of refinements and of structured values is evaluated per generated case on both sides (correspondence + oracle), not proved for all inputs",
                     "KF-C16-1: with placeholders nested below the top of the constraint, nulls, empty collections and unknown values lose their type (known finding, same format gap as KF-C15-2)"],
     },
+    "C17": {
+        "n_quick": 1300, "n_thorough": 20000,
+        "check_fn": "k17_check", "prop_fn": "k17_prop",
+        "rule": "169 directed hostile inputs (array32/map32/str32/bin32/ext32/array16/map16 headers claiming up to 2^31 elements at the top, nested, inside a dynamic wrapper and inside a refinement body, "
+                "against 9 target types and both ImpliedType functions; 6 MB of nesting for all five decoders) run in an isolated worker process under ulimit -v; then valid MessagePack / JSON "
+                "encodings of generated values (unknowns refined in every way for MessagePack), grammar documents and type descriptions, with 1..4 byte mutations (flip, set, insert, delete, "
+                "truncate, length-field edits, splices, duplications), JSON token mutations, item-tree mutations (items of another kind, nil / bin / non-string keys, duplicate and dropped "
+                "entries, dynamic wrappers with assorted type descriptors incl. optional attributes, refinement bodies with contradictory / out-of-range / wrongly typed / unknown-key entries, "
+                "wrong counts, oversize and foreign extensions), raw random bytes x target types equal to, mutated from, generalised from or unrelated to the original type; every decode runs "
+                "first in the isolated worker (crash, allocation volume), then in process (panic, well-formedness hook, conformance); non-trivial = every case",
+        "trusted_base": TB_VALUE + ["MessagePack framing: the harness's own parser (harness/internal/mp) turns bytes into item trees; inputs that are not an item (truncated, reserved code) "
+                                    "have no model case and are decided by the oracle alone",
+                                    "encoding/json is the byte<->token mapping for JSON; documents that are not valid JSON have no model case",
+                                    "vmihailenco/msgpack's typed readers (what item kinds DecodeBool/DecodeInt64/DecodeString/DecodeBytes/Decode*Len accept) are modelled from its v5.3.5 source and "
+                                    "validated by the correspondence on item-level mutations",
+                                    "allocation volume is runtime.MemStats.TotalAlloc around the call in the worker; crash = worker process death under ulimit -v 6 GiB"],
+        "assumptions": ["target types carry no optional-attribute annotations and no capsule types (value types)", "number texts with more than 4 exponent digits or 400 characters have no model case (cost)"],
+        "partial": ["theorems: MessagePack ImpliedType never panics (all item trees, any fuel); the refinement replay never panics (all entry streams, all types); foreign / broken items are refused. "
+                    "Conformance of every decoded value's type and panic-freedom of the value decoders are evaluated on the model for every generated input (k17_prop by vm_compute) and on the "
+                    "implementation by the oracle; they are not yet theorems for all inputs",
+                    "stack depth, allocation volume and process death are runtime behaviour the Gallina model cannot exhibit: decided by the isolated worker only"],
+        "prop_cases_are_inputs": True,
+    },
     "C18": {
         "n_quick": 260, "n_thorough": 6000,
         "check_fn": "k18_check",
